@@ -366,6 +366,26 @@ func c14Gen(t *rapid.T) c14Case {
 			rapid.SampledFrom([]int{0, 0, 1, -1}).Draw(t, "aim-delta"),
 			rapid.IntRange(0, 2).Draw(t, "aim-lim"))
 	}
+	if c.Aim == "" && rapid.IntRange(0, 7).Draw(t, "canon") == 0 {
+		// Per-connection state that only changes behaviour once it is full: the server
+		// caches canonical field names up to a byte budget (2048 bytes, 100+2*len per
+		// name). Exchange 0 carries enough distinct uncommon names to exhaust it, and
+		// the last exchange then sends a request trailer with one more uncommon name.
+		n := rapid.IntRange(19, 30).Draw(t, "canon-n")
+		q := &c.Reqs[0]
+		for i := 0; i < n; i++ {
+			q.Fields = append(q.Fields, c14Field{Name: "Vp-C" + string(rune('a'+i/26)) + string(rune('a'+i%26)), Seed: "v", Rep: 1})
+		}
+		l := &c.Reqs[len(c.Reqs)-1]
+		if l.BodyKind != 2 {
+			l.BodyKind, l.Chunks, l.DeclLen = 2, nil, false
+		}
+		l.Trailers = append(l.Trailers, c14Field{Name: "Vp-Ctr", Seed: "t", Rep: 1})
+		if len(c.Reqs) > 1 && l.StartMS <= q.StartMS {
+			l.StartMS = q.StartMS + 1
+		}
+		c.Aim = "canon-cache-full"
+	}
 	for k := range c.Reqs {
 		if c.overLimit(&c.Reqs[k]) {
 			// see c14Run: bounded pipes are not combined with exchanges that may end in a
